@@ -146,7 +146,7 @@ def oracle_c03(ctx):
     g.exotic = False
     # structural extremes: many entries, long strings, long byte arrays (sizes with every bit of a 16-bit counter and beyond)
     big = [{'k%05d' % i: i for i in range(5000)}, [None] * 5000, [[]] * 3000, {'s': 'x' * (2 ** 20)}, {'b': bytearray(b'\xce' * (2 ** 16 + 1))},
-           ['\u20ac' * 21846], {'k%05d' % i: [i, str(i)] for i in range(70000 if ctx.thorough else 7000)}, [True, False] * 40000,
+           ['\u20ac' * 21846], {'k%05d' % i: [i, str(i)] for i in range(7000)}, [True, False] * 40000,
            {'t': {'u': {'v': ['x' * 65535, 'y' * 65536, 'z' * 65537]}}}]
     for v in big:
         res.case('big %s %d' % (type(v).__name__, len(v)), tag='structural extremes')
